@@ -439,6 +439,13 @@ func (c *Concretizer) buildDelta(o *ROp) map[string]interface{} {
 		}
 	}
 
+	// a patch that is not allowed stays not allowed when a replace patch (which starts the document anew) follows it
+	if delta != nil && (o.Dv == "disabled" || o.Dv == "invalidpatch" || o.Dv == "noaction") && o.way(2) == 1 {
+		if l, ok := delta["patches"].([]interface{}); ok {
+			delta["patches"] = append(l, map[string]interface{}{"action": "replace", "document": map[string]interface{}{"publicKeys": []interface{}{c.docKeyJSON(2)}}})
+		}
+	}
+
 	if (o.Nuv == "reuse_signing" || o.Nuv == "reuse_signing_other_alg") && delta != nil {
 		// the next update commitment is the commitment of the key that signs this operation
 		signer := c.pool.Get(o.Kt, fmt.Sprintf("sig%d", o.Nr))
@@ -666,7 +673,8 @@ func (c *Concretizer) buildRequest(o *ROp, variant int) ([]byte, int) {
 		if !o.Sfx {
 			// the signed suffix is not the request's: another suffix, no suffix member at all (the shape of the
 			// signed data of a recover), an empty string
-			switch o.way(3) {
+			// ... the request's suffix behind a namespace / another segment, in front of one, in another letter case
+			switch o.way(6) {
 			case 0:
 				signed["didSuffix"] = "EiAnotherSuffixAnotherSuffixAnotherSuffixAnoth"
 			case 1:
@@ -675,6 +683,12 @@ func (c *Concretizer) buildRequest(o *ROp, variant int) ([]byte, int) {
 				signed["recoveryCommitment"] = recCommit
 			case 2:
 				signed["didSuffix"] = ""
+			case 3:
+				signed["didSuffix"] = "did:test:" + testSuffix
+			case 4:
+				signed["didSuffix"] = testSuffix + ":x"
+			case 5:
+				signed["didSuffix"] = strings.ToLower(testSuffix)
 			}
 		}
 
